@@ -1241,6 +1241,24 @@ def m_box_new(interp, path, args, ret_ty, callee):
     return args[0]
 
 
+@model(r"^Box::<\[.*; \d+\]>::new_uninit$", "vec![..] lowering: an uninitialised boxed array is a fresh heap cell")
+def m_box_new_uninit(interp, path, args, ret_ty, callee):
+    heap = path.frames.setdefault("heap", {})
+    key = "box%d" % len(heap)
+    heap[key] = StructV("MaybeUninit", [UnitV(), StructV("ManuallyDrop", [StructV("MaybeDangling", [UnitV()])])])
+    return StructV(ret_ty or "Box<?>", [StructV("Unique", [RefV("*const MaybeUninit", "heap", key, ())])])
+
+
+@model(r"^(std::|alloc::)?(boxed::)?box_assume_init_into_vec_unsafe::<.*>$", "vec![..] lowering: the initialised boxed array becomes the vector")
+def m_box_into_vec(interp, path, args, ret_ty, callee):
+    r = args[0].fields[0].fields[0]
+    cell = path.frames[r.fid][r.local]
+    arr = cell.fields[1].fields[0].fields[0]
+    if arr.kind != "struct":
+        raise Refuse("vec![..] lowering: array was not initialised")
+    return StructV(ret_ty or "Vec<?>", list(arr.fields))
+
+
 @model(r"^Vec::<.*>::new$", "empty vector")
 def m_vec_new(interp, path, args, ret_ty, callee):
     return StructV(ret_ty or "Vec<?>", [])
@@ -1381,13 +1399,29 @@ def _is_entry_set(v):
     return v.kind == "struct" and re.match(r"^(IndexSet|BTreeSet|HashSet)<", norm_ty(v.ty)) is not None
 
 
-@model(r"^<&(IndexSet|BTreeSet|HashSet)<.*> as IntoIterator>::into_iter$|^(IndexSet|BTreeSet|HashSet)::<.*>::iter$",
-       "borrowing iterator over an entry-list set")
+@model(r"^<&(IndexSet|BTreeSet|HashSet|Vec)<.*> as IntoIterator>::into_iter$|^(IndexSet|BTreeSet|HashSet)::<.*>::iter$|"
+       r"<impl \[.*\]>::iter$",
+       "borrowing iterator over an entry-list set / vector (elements in order)")
 def m_set_iter(interp, path, args, ret_ty, callee):
     v = deref(interp, path, args[0])
-    if not _is_entry_set(v):
+    if not (_is_entry_set(v) or (v.kind == "struct" and norm_ty(v.ty).startswith("Vec<"))):
         raise Refuse("iteration over %r" % (v,))
     return StructV("SetRefIter", list(v.fields))
+
+
+@model(r"^Vec::<.*>::push$", "append an element to an entry-list vector")
+def m_vec_push(interp, path, args, ret_ty, callee):
+    r = args[0]
+    if r.kind != "ref" or hasattr(r, "target"):
+        raise Refuse("Vec::push needs a reference to the vector place")
+    v = interp.read(path, r.fid, r.local, r.projs)
+    interp.write(path, r.fid, r.local, r.projs, StructV(v.ty, list(v.fields) + [args[1]]))
+    return UnitV()
+
+
+@model(r"^<u(8|16|32|64|128|size) as Zero>::is_zero$", "x == 0")
+def m_uint_is_zero(interp, path, args, ret_ty, callee):
+    return BoolV(deref(interp, path, args[0]).term == 0)
 
 
 @model(r"^<(set::|btree_set::|hash_set::)?Iter<.*> as Iterator>::next$", "next element by reference")
@@ -1402,7 +1436,7 @@ def m_set_iter_next(interp, path, args, ret_ty, callee):
     if not it.fields:
         return EnumV(ret_ty, 0, {0: []})
     interp.write(path, r.fid, r.local, r.projs, StructV("SetRefIter", it.fields[1:]))
-    return EnumV(ret_ty, 1, {1: [_ConstRef("&T", it.fields[0])]})
+    return EnumV(ret_ty, 1, {1: [_ConstRef("&" + getattr(it.fields[0], "ty", "T"), it.fields[0])]})
 
 
 @model(r"^(IndexSet|BTreeSet|HashSet)::<.*>::difference(::<.*>)?$", "lazy set difference (elements of a not in b)")
@@ -1438,7 +1472,7 @@ def m_set_difference_next(interp, path, args, ret_ty, callee):
             if tag == "skip":
                 work.append(p2)
             else:
-                outs.append(Outcome(p2, "ret", EnumV(ret_ty, 1, {1: [_ConstRef("&T", e)]})))
+                outs.append(Outcome(p2, "ret", EnumV(ret_ty, 1, {1: [_ConstRef("&" + getattr(e, "ty", "T"), e)]})))
     return outs
 
 
@@ -1809,4 +1843,8 @@ def library_const(interp, name, want_ty):
         if m.group(2) == "BITS":
             return IntV(INT_TYPES[m.group(1)][0], "u32")
         return IntV(lo if m.group(2) == "MIN" else hi, m.group(1))
+    # layout constants only feed rustc's pointer-alignment / null-pointer debug assertions (vec![..] lowering); heap cells
+    # of the model live at a fixed aligned non-null address, so any power of two serves
+    if re.search(r" as (std::mem::|core::mem::)?SizedTypeProperties>::(ALIGN|SIZE)$", name.strip()):
+        return IntV(8, "usize")
     return None
